@@ -277,6 +277,7 @@ func init() {
 			{Name: "fields", QShards: 2, TShards: 8, Run: c11Fields},
 			{Name: "bytes", Run: c11Bytes},
 			{Name: "parallel", Race: true, QShards: 2, TShards: 6, Run: codecParallel("fasta", "fastq", "sam", "samh", "bed", "newick")},
+			{Name: "histories", QShards: 2, TShards: 6, Run: codecHistories("fasta", "fastq", "sam", "samh", "bed", "newick")},
 			{Name: "fuzz", Thorough: true, Run: c11Fuzz},
 		},
 	})
